@@ -4,6 +4,7 @@ import (
 	"fmt"
 	"os"
 	"strings"
+	"unicode/utf8"
 
 	"github.com/avfs/avfs"
 	"github.com/avfs/avfs/vfs/basepathfs"
@@ -167,6 +168,7 @@ type checker struct {
 	cls   map[string]string
 	extra map[string]string // added to every signature (non-administrator scenarios)
 	user  string
+	shape bool // the current tree is a name-shape tree
 }
 
 func newChecker(R string, u universe, name string) *checker {
@@ -178,10 +180,16 @@ func newChecker(R string, u universe, name string) *checker {
 
 func (c *checker) san(s string) string { return strings.ReplaceAll(s, c.R, "R") }
 
+// sanL prepares result lists for display in replays and samples; bytes that
+// are not UTF-8 are written \xNN (JSON would replace them).
 func (c *checker) sanL(l []string) []string {
 	out := make([]string, len(l))
 	for i, s := range l {
 		out[i] = c.san(s)
+
+		if !utf8.ValidString(out[i]) {
+			out[i] = disp(out[i])
+		}
 	}
 
 	return out
@@ -201,6 +209,11 @@ func (c *checker) class(p string) string {
 func (c *checker) report(sig map[string]string, replay map[string]any) {
 	for k, v := range c.extra {
 		sig[k] = v
+	}
+
+	// names are byte strings; signatures are printable text
+	for k, v := range sig {
+		sig[k] = printable(v)
 	}
 
 	c.st.Instances++
@@ -305,7 +318,7 @@ func (c *checker) replayObj(fsName string, es []ent, ops []mop, q query, want, g
 // checkTree runs every query of the universe on the tree es: oracle first, then
 // every file system. The tree must already be materialised on the kernel side
 // with cwd = R, and qr must be the oracle pass over it.
-func (c *checker) checkTree(es []ent, ops []mop, qr []qres, fsList []string, view func(*inst) (avfs.VFS, error)) {
+func (c *checker) checkTree(es []ent, ops []mop, qs querySet, qr []qres, fsList []string, view func(*inst) (avfs.VFS, error)) {
 	sym := hasSymlink(es)
 	c.cls = map[string]string{}
 
@@ -376,6 +389,11 @@ func (c *checker) checkTree(es []ent, ops []mop, qr []qres, fsList []string, vie
 					sig["pattern"] = patClass(q)
 					if d.HasPath {
 						sig["target"] = c.class(path)
+
+						// name-shape trees: what follows the shared prefix in the name
+						if c.shape {
+							sig["name"] = contClass(path[strings.LastIndexByte(path, '/')+1:])
+						}
 					}
 				case "ReadDir":
 					sig["path"] = relName(q.Rel)
@@ -410,12 +428,7 @@ func (c *checker) checkTree(es []ent, ops []mop, qr []qres, fsList []string, vie
 		}
 
 		// helpers
-		hp := []string{c.R, c.R + "/nope", c.R + "/nope/x", ".", "a", "a/b", ""}
-		for _, p := range candidatePaths(c.u, 3) {
-			hp = append(hp, c.R+"/"+p)
-		}
-
-		for _, p := range hp {
+		for _, p := range qs.helperPaths(c.R) {
 			arg := p
 			if in.bp {
 				arg = toBP(c.R, p)
